@@ -298,6 +298,9 @@ func finish(w *World, p *Plan, r *Result) {
 	r.Viol = w.Viol
 	r.Stats = w.Stats
 	r.Fired = w.N.Fired
+	if r.StateHash == "" {
+		r.StateHash = abstractHistory(w)
+	}
 	for _, f := range k.Failures {
 		r.Infra = append(r.Infra, f)
 	}
@@ -309,6 +312,51 @@ func finish(w *World, p *Plan, r *Result) {
 			fmt.Fprintln(os.Stderr, l)
 		}
 	}
+}
+
+// abstractHistory: a hash of what the proxy did, abstracted from payloads and
+// times: the sequence of (transport, destination, method or status) of its
+// emissions, the dial / close / refused events and the DNS answers. Two runs
+// with the same value behaved alike at the network boundary; the number of
+// distinct values in a batch is the "distinct abstract states" of the evidence.
+func abstractHistory(w *World) string {
+	h := uint64(1469598103934665603)
+	mix := func(s string) {
+		for i := 0; i < len(s); i++ {
+			h ^= uint64(s[i])
+			h *= 1099511628211
+		}
+		h ^= 0xff
+		h *= 1099511628211
+	}
+	for _, e := range w.N.Emissions {
+		mix(e.Proto)
+		mix(e.Dst)
+		d := e.Data
+		if i := strings.IndexByte(string(d[:min(len(d), 40)]), ' '); i > 0 {
+			if strings.HasPrefix(string(d), "SIP/") && len(d) > i+4 {
+				mix(string(d[i+1 : i+4]))
+			} else {
+				mix(string(d[:i]))
+			}
+		}
+		mix(e.Err)
+	}
+	for _, ev := range w.N.Events {
+		switch ev.Kind {
+		case "tcp-connect", "tcp-refused", "tcp-close", "tcp-reset", "udp-close", "dns", "tcp-write-error":
+			mix(ev.Kind)
+			mix(ev.B)
+		}
+	}
+	return fmt.Sprintf("%016x", h)
+}
+
+func min(a, b int) int {
+	if a < b {
+		return a
+	}
+	return b
 }
 
 func sortedKeys(m map[string]int) []string {
